@@ -308,7 +308,8 @@ def cursor_rules(ctx: Ctx, rule: str):
     sched = repo.func("TaskScenario.schedule")
     slot = repo.func("TaskScenario.scheduleSlot")
     res = local_resolver(sched.node)
-    walks = [w for w in own_nodes(sched) if isinstance(w, ast.While) and "scheduleSlot" in norm(w.test)]
+    from .common import slot_walks
+    walks = slot_walks(sched)
     if len(walks) != 1:
         raise AnchorMissing(f"slot walk loop: {len(walks)} found")
     w = walks[0]
